@@ -6,6 +6,45 @@ use crate::reflua::parser::{parse_block, Mode};
 use crate::reflua::print::print_block;
 use std::rc::Rc;
 
+/// lazily enumerated single-step simplifications of a source text (edits nearest to the end of the program first)
+pub struct SrcShrinker {
+    block: Block,
+    n: usize,
+    canonical: String,
+}
+
+impl SrcShrinker {
+    pub fn new(src: &str) -> Option<SrcShrinker> {
+        let block = parse_block(src, Mode::Luau).ok()?;
+        let mut n = 0usize;
+        count_block(&block, &mut n);
+        let canonical = print_block(&block);
+        Some(SrcShrinker { block, n, canonical })
+    }
+    pub fn count(&self) -> usize {
+        self.n
+    }
+    /// the i-th candidate (i = 0 is the edit closest to the end of the program); None when the edit is a no-op
+    pub fn candidate(&self, i: usize) -> Option<String> {
+        if i >= self.n {
+            return None;
+        }
+        let idx = self.n - 1 - i;
+        let mut counter = 0usize;
+        let mut done = false;
+        let b2 = edit_block(&self.block, idx, &mut counter, &mut done);
+        if !done {
+            return None;
+        }
+        let text = print_block(&b2);
+        if text == self.canonical {
+            None
+        } else {
+            Some(text)
+        }
+    }
+}
+
 /// all single-step simplifications of `src` (bounded); empty when `src` does not parse
 pub fn shrink_source(src: &str, cap: usize) -> Vec<String> {
     let Ok(block) = parse_block(src, Mode::Luau) else { return line_shrinks(src, cap) };
@@ -16,7 +55,7 @@ pub fn shrink_source(src: &str, cap: usize) -> Vec<String> {
     count_block(&block, &mut n);
     // big steps first: delete statements (largest first is approximated by order), then unwrap, then exprs
     let mut idx = 0usize;
-    while idx < n && out.len() < cap {
+    while idx < n && out.len() < cap * 8 {
         let mut counter = 0usize;
         let mut done = false;
         let b2 = edit_block(&block, idx, &mut counter, &mut done);
@@ -28,6 +67,9 @@ pub fn shrink_source(src: &str, cap: usize) -> Vec<String> {
         }
         idx += 1;
     }
+    // later statements have no dependents: try edits from the end of the program first
+    out.reverse();
+    out.truncate(cap * 8);
     if canonical.len() < src.len() && !out.contains(&canonical) {
         out.push(canonical);
     }
